@@ -109,7 +109,76 @@ type HStep struct {
 	Signer   int    `json:"signer,omitempty"` // Rotate: 0 nil, 1 ok, 2 fails, 3 ok with an empty result, 4 honours the context
 	ErrClass int    `json:"err_class,omitempty"`
 	Tag      string `json:"tag,omitempty"`
-	Ev       *Case  `json:"ev,omitempty"` // Process: type, time, pkind, pid, payload, pre of the event
+	Ev       *Case  `json:"ev,omitempty"`  // Process: type, time, pkind, pid, payload, pre of the event
+	Set      *Patch `json:"set,omitempty"` // the caller assigns exported fields of the node between calls
+}
+
+// Patch: which exported fields of the FormatterFilter the caller assigns (nil pointer = field left alone)
+type Patch struct {
+	Copy     bool      `json:"copy,omitempty"` // continue with a copy of the struct (then apply the assignments to the copy)
+	Source   *string   `json:"source,omitempty"`
+	Schema   *string   `json:"schema,omitempty"`
+	Format   *string   `json:"format,omitempty"`
+	Types    *[]string `json:"types,omitempty"`
+	Signer   *int      `json:"signer,omitempty"` // the Signer field assigned directly (not via Rotate); 0 = nil
+	Tag      string    `json:"tag,omitempty"`
+	ErrClass int       `json:"err_class,omitempty"`
+	Pred     *int      `json:"pred,omitempty"`
+}
+
+func setPredicate(sh *shared, pred, errClass int) {
+	switch pred {
+	case 1:
+		sh.node.Predicate = func(context.Context, interface{}) (bool, error) { return true, nil }
+	case 2:
+		sh.node.Predicate = func(context.Context, interface{}) (bool, error) { return false, nil }
+	case 3:
+		sh.node.Predicate = func(context.Context, interface{}) (bool, error) {
+			sh.predErr = true
+			return false, jgen.InjectedError(errClass)
+		}
+	case 4:
+		sh.node.Predicate = func(context.Context, interface{}) (bool, error) {
+			sh.predErr = true
+			return true, jgen.InjectedError(errClass)
+		}
+	default:
+		sh.node.Predicate = nil
+	}
+}
+
+// apply assigns the fields on the node and keeps cur, the configuration in force, in step
+func (p *Patch) apply(sh *shared, cur *Case) {
+	if p.Copy {
+		n2 := *sh.node // copying the used struct is exactly the scenario
+		sh.node = &n2
+	}
+	if p.Source != nil {
+		u, _, _ := mkURL(*p.Source)
+		sh.node.Source, cur.Source = u, *p.Source
+	}
+	if p.Schema != nil {
+		u, _, _ := mkURL(*p.Schema)
+		sh.node.Schema, cur.Schema = u, *p.Schema
+	}
+	if p.Format != nil {
+		sh.node.Format, cur.Format = ce.Format(*p.Format), *p.Format
+	}
+	if p.Types != nil {
+		var l []string
+		for _, t := range *p.Types {
+			l = append(l, string(jgen.Unhex(t)))
+		}
+		sh.node.SignEventTypes, cur.Types = l, *p.Types
+	}
+	if p.Signer != nil {
+		sh.node.Signer = mkSigner(*p.Signer, jgen.Unhex(p.Tag), &sh.calls, p.ErrClass)
+		cur.Signer, cur.Tag = *p.Signer, p.Tag
+	}
+	if p.Pred != nil {
+		setPredicate(sh, *p.Pred, p.ErrClass)
+		cur.Pred = *p.Pred
+	}
 }
 
 func cfgLit(c Case) string {
@@ -132,15 +201,18 @@ func runHist(c Case) (ret *retained, panics []string, fresh []string, observed [
 		sh.node.SignEventTypes = append(sh.node.SignEventTypes, string(jgen.Unhex(t)))
 	}
 	sh.node.Signer = mkSigner(c.Signer, jgen.Unhex(c.Tag), &sh.calls, c.ErrClass)
-	switch c.Pred {
-	case 1:
-		sh.node.Predicate = func(context.Context, interface{}) (bool, error) { return true, nil }
-	case 2:
-		sh.node.Predicate = func(context.Context, interface{}) (bool, error) { return false, nil }
-	}
+	setPredicate(sh, c.Pred, c.ErrClass)
+	cur := c // the configuration in force: changed by Rotate and by assignments to the node's fields
 	ret = &retained{id: c.ID}
 	var order []string // per step: "" for a Process step (filled from the records), the literal for a Rotate step
 	for i, st := range c.Hist {
+		if st.Set != nil {
+			st.Set.apply(sh, &cur)
+			order = append(order, "HSet "+cfgLit(cur))
+			js, _ := json.Marshal(st.Set)
+			observed = append(observed, fmt.Sprintf("step %d the caller assigns %s", i, js))
+			continue
+		}
 		if st.Rotate {
 			var rerr error
 			func() {
@@ -152,12 +224,15 @@ func runHist(c Case) (ret *retained, panics []string, fresh []string, observed [
 				rerr = sh.node.Rotate(mkSigner(st.Signer, jgen.Unhex(st.Tag), &sh.calls, st.ErrClass))
 			}()
 			order = append(order, fmt.Sprintf("HRot %d %s %s", st.Signer, jgen.Bytes(jgen.Unhex(st.Tag)), hc.B(rerr != nil)))
+			if rerr == nil && st.Signer != 0 {
+				cur.Signer, cur.Tag = st.Signer, st.Tag
+			}
 			observed = append(observed, fmt.Sprintf("step %d Rotate(signer kind %d) -> err=%v", i, st.Signer, rerr))
 			continue
 		}
 		ev := *st.Ev
 		ev.ID = c.ID
-		ev.Source, ev.Schema, ev.Format, ev.Types, ev.Pred = c.Source, c.Schema, c.Format, c.Types, c.Pred
+		ev.Source, ev.Schema, ev.Format, ev.Types, ev.Pred = cur.Source, cur.Schema, cur.Format, cur.Types, cur.Pred
 		r, obs, _ := runCaseOn(ev, sh)
 		if obs.Panic != "" {
 			panics = append(panics, fmt.Sprintf("case %d: step %d: %s", c.ID, i, obs.Panic))
@@ -253,6 +328,50 @@ func genHistGrid(em *emitter) {
 	}
 }
 
+func sp(s string) *string { return &s }
+func ip(i int) *int       { return &i }
+
+// between two Process calls on ONE node the caller assigns an exported field (or continues with a copy of the struct): the
+// second event is judged under the configuration then in force; valid -> invalid -> valid transitions included
+func genHistConfig(em *emitter) {
+	other := []string{hx("other")}
+	listed := []string{hx("t")}
+	patches := []Patch{
+		{Source: sp("https://other.example/src")}, {Source: sp("")}, {Source: sp("<empty>")}, {Source: sp("urn:x:y")},
+		{Schema: sp("https://schema.example/one")}, {Schema: sp("https://schema.example/two")}, {Schema: sp("")}, {Schema: sp("<empty>")},
+		{Format: sp("cloudevents-text")}, {Format: sp("cloudevents-json")}, {Format: sp("")}, {Format: sp("bogus")},
+		{Types: &other}, {Types: &listed}, {Types: &[]string{}},
+		{Signer: ip(1), Tag: hx("F-")}, {Signer: ip(2)}, {Signer: ip(0)}, {Signer: ip(3)},
+		{Pred: ip(2)}, {Pred: ip(3)}, {Pred: ip(0)}, {Pred: ip(1)},
+		{Copy: true}, {Copy: true, Source: sp("https://copy.example")}, {Copy: true, Schema: sp("")}, {Copy: true, Format: sp("bogus")},
+	}
+	valid := Patch{Source: sp("https://src.example/again"), Schema: sp("https://schema.example/again"), Format: sp("cloudevents-json")}
+	for _, start := range []Case{
+		{Source: "https://src.example", Signer: 1, Tag: hx("I-"), Types: listed},
+		{Source: "https://src.example", Schema: "https://schema.example/s", Format: "cloudevents-text", Types: listed, Pred: 1},
+	} {
+		for i := range patches {
+			p := patches[i]
+			c := start
+			c.Gen = "history-config"
+			c.Hist = []HStep{{Ev: histEvent("t", 0)}, {Set: &p}, {Ev: histEvent("t", 1)}, {Ev: histEvent("u", 2)}}
+			em.emitHist(c)
+			// ... then back to a valid configuration: the node must accept again (and reject in between if it was invalid)
+			v := valid
+			c.Hist = []HStep{{Ev: histEvent("t", 0)}, {Set: &p}, {Ev: histEvent("t", 1)}, {Set: &v}, {Ev: histEvent("t", 2)}}
+			em.emitHist(c)
+			// the assignment before the very first event
+			c.Hist = []HStep{{Set: &p}, {Ev: histEvent("t", 1)}}
+			em.emitHist(c)
+		}
+	}
+	// a node that starts invalid, is rejected, is repaired, accepts, is broken again
+	bad := Case{Gen: "history-config", Source: "", Types: listed, Signer: 1, Tag: hx("I-")}
+	fix, brk := Patch{Source: sp("https://late.example")}, Patch{Schema: sp("<empty>")}
+	bad.Hist = []HStep{{Ev: histEvent("t", 0)}, {Set: &fix}, {Ev: histEvent("t", 1)}, {Set: &brk}, {Ev: histEvent("t", 2)}, {Set: &Patch{Schema: sp("")}}, {Ev: histEvent("t", 0)}}
+	em.emitHist(bad)
+}
+
 func genHistRandom(em *emitter, r *hc.Rand, n int) {
 	g := &jgen.Gen{R: r, Stats: em.stats}
 	for i := 0; i < n; i++ {
@@ -261,6 +380,26 @@ func genHistRandom(em *emitter, r *hc.Rand, n int) {
 		listed := hex.EncodeToString(append([]byte{'t'}, g.String(2)...))
 		c.Types = []string{hx("zz"), listed}
 		for j, m := 0, 2+r.Intn(7); j < m; j++ {
+			if r.Chance(1, 4) { // the caller assigns a field of the node
+				p := &Patch{Copy: r.Chance(1, 6)}
+				switch r.Intn(6) {
+				case 0:
+					p.Source = sp([]string{"https://src.example", "https://other.example/x?y=<1>", "urn:a:b", "", "<empty>"}[r.Intn(5)])
+				case 1:
+					p.Schema = sp([]string{"", "https://schema.example/s", "s:<&>", "<empty>"}[r.Intn(4)])
+				case 2:
+					p.Format = sp([]string{"", "cloudevents-json", "cloudevents-text", "bogus"}[r.Intn(4)])
+				case 3:
+					l := [][]string{{listed}, {hx("zz")}, nil, {hx("zz"), listed, listed}}[r.Intn(4)]
+					p.Types = &l
+				case 4:
+					p.Signer, p.Tag, p.ErrClass = ip([]int{0, 1, 2, 3, 4}[r.Intn(5)]), hex.EncodeToString(g.String(2)), r.Intn(jgen.ErrClasses)
+				default:
+					p.Pred, p.ErrClass = ip(r.Intn(5)), r.Intn(jgen.ErrClasses)
+				}
+				c.Hist = append(c.Hist, HStep{Set: p})
+				continue
+			}
 			if r.Chance(2, 5) {
 				c.Hist = append(c.Hist, HStep{Rotate: true, Signer: []int{0, 1, 1, 2, 3, 4}[r.Intn(6)], Tag: hex.EncodeToString(g.String(2))})
 				continue
@@ -335,8 +474,9 @@ func fmtLit(f string) string {
 
 // shared is ONE FormatterFilter used by all Process steps of a history; its signer closures record into calls
 type shared struct {
-	node  *ce.FormatterFilter
-	calls [][]byte
+	node    *ce.FormatterFilter
+	calls   [][]byte
+	predErr bool
 }
 
 // inFlight lets a callback cancel the context of the call it is running in (context kind 8)
@@ -498,6 +638,7 @@ func runCaseOn(c Case, sh *shared) (ret *retained, obs Obs, nontrivial bool) {
 	if sh != nil { // a step of a history: the one shared node, whatever signer is installed on it now
 		node = sh.node
 		sh.calls = nil
+		sh.predErr = false
 	}
 	var out *el.Event
 	var err error
@@ -536,6 +677,7 @@ func runCaseOn(c Case, sh *shared) (ret *retained, obs Obs, nontrivial bool) {
 	}
 	if sh != nil {
 		calls = sh.calls
+		predErr = sh.predErr
 	}
 	obs.Err = err != nil
 	if err != nil {
@@ -1522,6 +1664,7 @@ func main() {
 			genConcSign(em, *concPer)
 		case "hist":
 			genHistGrid(em)
+			genHistConfig(em)
 			genHistRandom(em, r.Fork(), *nHist)
 		case "":
 		default:
